@@ -551,6 +551,34 @@ def none_by_truthiness(model: Model, R: RuleResult, files: Set[str]) -> int:
                     R.bad(fi, enclosing_stmt(node), "optional parameter `%s` is tested by truthiness: a legal falsy value (0, 0.0, \"\", an empty or falsy object) is "
                           "silently replaced by the default / treated as absent; use `is None`" % t.id)
         n += len(op)
+    # option values looked up in an options mapping are optional in the same way: `cfg["atol"] or default` replaces a legal 0 / 0.0
+    def _is_option_lookup(e) -> bool:
+        base = None
+        if isinstance(e, ast.Subscript) and isinstance(e.slice, ast.Constant) and isinstance(e.slice.value, str):
+            base = e.value
+        elif isinstance(e, ast.Call) and isinstance(e.func, ast.Attribute) and e.func.attr in ("get", "pop") and e.args and isinstance(e.args[0], ast.Constant) \
+                and isinstance(e.args[0].value, str) and (len(e.args) == 1 or (isinstance(e.args[1], ast.Constant) and e.args[1].value is None)):
+            base = e.func.value
+        if base is None:
+            return False
+        t = ast.unparse(base).lower()
+        return any(w in t for w in ("option", "config", "cfg", "kwargs", "unused"))
+    for fi in model.all_functions():
+        if fi.module.relpath not in files:
+            continue
+        fdefs = {}
+        for st in own_nodes(fi.node):
+            if isinstance(st, ast.Assign) and len(st.targets) == 1 and isinstance(st.targets[0], ast.Name):
+                fdefs.setdefault(st.targets[0].id, []).append(st.value)
+        for node in own_nodes(fi.node):
+            if isinstance(node, ast.BoolOp) and isinstance(node.op, ast.Or) and len(node.values) == 2:
+                first, dflt = node.values
+                looked = _is_option_lookup(first) or (isinstance(first, ast.Name) and len(fdefs.get(first.id, [])) == 1 and _is_option_lookup(fdefs[first.id][0]))
+                falsy_default = isinstance(dflt, ast.Constant) and dflt.value in (None, False, 0, "")
+                if looked and not falsy_default:
+                    n += 1
+                    R.bad(fi, enclosing_stmt(node), "the option `%s` is resolved with `or`: a legal falsy value the caller asked for (0, 0.0 - e.g. a tolerance switched off) "
+                          "is silently replaced by the default `%s`; test `is None`" % (ast.unparse(first)[:50], ast.unparse(dflt)[:30]))
     R.ok("anchor files", "%d optional parameter(s) in %d file(s): none is resolved by a truthiness test" % (n, len(files)))
     ctl = ast.parse("def f(x, extrap=None):\n    return extrap or 'nan'\n\ndef g(x, extrap=None):\n    return 'nan' if extrap is None else extrap\n")
     def fires(fn):
